@@ -591,6 +591,7 @@ func genHistMsg(t *rapid.T, unpacked bool) wm.Msg {
 	if m.Opt() >= 0 {
 		m.Rcode = genHistRcode(t, "rc")
 	}
+	cookiesMsg(&m)
 	return m
 }
 
@@ -651,6 +652,7 @@ func genHistory(t *rapid.T) histCase {
 			if rapid.Bool().Draw(t, "add") {
 				o := &gen.Opts{Avoid: avoid(), Excluded: pbt.Excluded, Unknown: true, MaxBlob: 40}
 				r := gen.Rec(t, o)
+				cookiesRec(&r)
 				st = histStep{Op: "add-rec", N: rapid.IntRange(0, 2).Draw(t, "sec"), Rec: &r}
 			} else {
 				st = histStep{Op: "drop-rec"}
